@@ -11,7 +11,7 @@ from txdbus import objects, interface, error
 ACTIONS = {'ProxyCall': ('k',), 'Deliver': ('l', 'cnt', 'p')}
 OBS = ['q', 'part', 'state', 'ran', 'wrongarg', 'done']
 LINKS = ['a2b', 'b2a', 'x2b', 'b2x']
-METHOD = {1: 'Echo', 2: 'Pair', 0: 'Words'}
+METHODS = ['Table', 'Echo', 'Pair', 'Words']
 
 
 class SrvError(Exception):
@@ -24,13 +24,14 @@ def misfit(arg):
     return int(arg[3:]) % 2 == 0
 
 
-BAD = {'Echo': ['r', 'not a struct'], 'Words': 7, 'Pair': ('only-one',)}
+BAD = {'Echo': ['r', 'not a struct'], 'Words': 7, 'Pair': ('only-one',), 'Table': 'not an array'}
 
 
 def build_object(raises, log):
     iface = interface.DBusInterface('org.ex.Echo', interface.Method('Echo', arguments='sa{sv}', returns='s(is)'),
                                     interface.Method('Words', arguments='sa{sv}', returns='as'),
-                                    interface.Method('Pair', arguments='sa{sv}', returns='(ss)'), noRegister=True)
+                                    interface.Method('Pair', arguments='sa{sv}', returns='(ss)'),
+                                    interface.Method('Table', arguments='sa{sv}', returns='a(si)'), noRegister=True)
 
     other = interface.DBusInterface('org.ex.Other', interface.Method('Pair', arguments='sa{sv}', returns='(ss)'),
                                     interface.Method('Words', arguments='sa{sv}', returns='as'), noRegister=True)
@@ -67,6 +68,14 @@ def build_object(raises, log):
                 raise SrvError('boom:' + s)
             return ['w:' + s]
 
+        def dbus_Table(self, s, extra):           # one value that is not a struct but holds structs
+            log.append((s, extra))
+            if s in raises:
+                if misfit(s):
+                    return BAD['Table']
+                raise SrvError('boom:' + s)
+            return [('t:' + s, 1), ('u', 2)]
+
         @objects.dbusMethod('org.ex.Echo', 'Pair')
         def echo_pair(self, s, extra):            # one struct
             log.append((s, extra))
@@ -83,6 +92,7 @@ class E2EDriver:
         self.calls = list(calls)
         self.introspect = introspect
         self.raises = {'arg%d' % k for k in raises}
+        self.shift = 0 if not introspect else (2 if unix else 3)      # which methods the calls use
         self.net = fakes.BusNet(unix=unix)
         self.a = self.net.add_client()
         self.x = self.net.add_client()
@@ -104,6 +114,18 @@ class E2EDriver:
         self.net.run()
         assert res == [1], res
         got = []
+        if introspect:
+            # the caller already holds an introspected proxy for the object another client exports at the same path
+            dec = [ci for ci in range(len(self.net.clients)) if ci != self.x][-1]
+            r2 = []
+            self.net.clients[dec][0].requestBusName('org.ex.Decoy').addBoth(r2.append)
+            self.net.run()
+            assert r2 == [1], r2
+            keep = []
+            ca.getRemoteObject('org.ex.Decoy', '/obj').addBoth(keep.append)
+            self.net.run()
+            assert keep and isinstance(keep[0], objects.RemoteDBusObject), keep
+            self.decoy_proxy = keep[0]
         if introspect:
             ca.getRemoteObject('org.ex.Srv', '/obj').addBoth(got.append)
         else:
@@ -150,7 +172,7 @@ class E2EDriver:
             k = args[0]
             self.state[k] = 'called'
             kw = {'interface': 'org.ex.Echo'} if self.introspect else {}     # an explicit proxy only knows org.ex.Echo
-            d = self.proxy.callRemote(METHOD[k % 3], 'arg%d' % k, {'k': k, 'why': 'x' * (k % 3)}, **kw)
+            d = self.proxy.callRemote(self.method(k), 'arg%d' % k, {'k': k, 'why': 'x' * (k % 3)}, **kw)
             d.addCallbacks(lambda v, k=k: self._res(k, ('value', v)), lambda f, k=k: self._res(k, ('error', f)))
         else:
             l, n, p = args
@@ -172,6 +194,9 @@ class E2EDriver:
                 self.part[l] = False
         self._absorb()
 
+    def method(self, k):
+        return METHODS[(k + self.shift) % 4]
+
     def _res(self, k, r):
         self.results[k].append(r)
         self.state[k] = 'done'
@@ -187,7 +212,8 @@ class E2EDriver:
             else:
                 kind, v = rs[0]
                 arg = 'arg%d' % k
-                want = {'Echo': ['r:' + arg, [2, 'é' + arg]], 'Words': ['w:' + arg], 'Pair': [['p:' + arg, 'q']]}[METHOD[k % 3]]
+                want = {'Echo': ['r:' + arg, [2, 'é' + arg]], 'Words': ['w:' + arg], 'Pair': [['p:' + arg, 'q']],
+                        'Table': [['t:' + arg, 1], ['u', 2]]}[self.method(k)]
                 if kind == 'value' and v == want:
                     done.append('value')
                 elif kind == 'error' and isinstance(v.value, error.RemoteError) and not misfit(arg) and \
